@@ -778,15 +778,21 @@ func run(r *vrt.Run) {
 		return
 	}
 	vrt.Par(n, 0, func(i int) { runCase(r, i) })
-	r.Require("syncs_hash", 20)
-	r.Require("syncs_path", 20)
-	r.Require("partial_syncs", 20)
-	r.Require("stale_at_target_paths", 10)
-	r.Require("stale_interior_nodes", 3)
-	r.Require("duplicates_delivered", 50)
-	r.Require("undecodable_delivered", 20)
-	r.Require("restarts", 5)
-	r.Require("closure_checks", 100)
+	need := func(name string, min int64) { // coverage obligations, scaled down for the (smaller) race workload
+		if r.Race() {
+			min = max(1, min/4)
+		}
+		r.Require(name, min)
+	}
+	need("syncs_hash", 20)
+	need("syncs_path", 20)
+	need("partial_syncs", 20)
+	need("stale_at_target_paths", 10)
+	need("stale_interior_nodes", 3)
+	need("duplicates_delivered", 50)
+	need("undecodable_delivered", 20)
+	need("restarts", 5)
+	need("closure_checks", 100)
 	r.Assume("reference trie refmpt / flatstate (target node sets, child relation derived from path prefixes)")
 	r.Assume("hash-mismatch rejection of well-formed nodes is the caller's duty (snap.Syncer.OnTrieNodes) and is decided by C47, not here")
 }
